@@ -13,6 +13,11 @@ from .c04 import schedule_st
 
 STMTS = {"assign": "o.x = {c}", "add": "o.x += {c}", "sub": "o.x -= {c}", "mul": "o.x *= {c}",
          "read": "out.append(o.x)"}
+# other ways of writing the same augmented assignment (the object reached through a subscript, a
+# call, or inside a one-line if)
+SHAPES = ["{stmt}", "{stmt}", "objs[0].x {op} {c}", "same(o).x {op} {c}", "if True: {stmt}",
+          "o . x {op} {c}"]
+OPS = {"add": "+=", "sub": "-=", "mul": "*="}
 
 
 @st.composite
@@ -22,7 +27,7 @@ def attr_case(draw):
   for _ in range(nthreads):
     n = draw(st.integers(1, 3))
     threads.append([[draw(st.sampled_from(["assign", "add", "add", "sub", "mul", "read"])),
-                     draw(st.integers(1, 4))] for _ in range(n)])
+                     draw(st.integers(1, 4)), draw(st.integers(0, len(SHAPES) - 1))] for _ in range(n)])
   fine = st.lists(st.tuples(st.integers(0, 5), st.integers(1, 9)), max_size=60)
   return {"threads": threads, "initial": draw(st.integers(0, 3)),
           "schedule": [list(x) for x in draw(st.one_of(schedule_st, fine))]}
@@ -38,7 +43,7 @@ def serial_results(threads, initial):
     for t in range(len(threads)):
       if idx[t] < len(threads[t]):
         done = False
-        k, c = threads[t][idx[t]]
+        k, c = threads[t][idx[t]][:2]
         idx[t] += 1
         go({"assign": c, "add": val + c, "sub": val - c, "mul": val * c, "read": val}[k])
         idx[t] -= 1
@@ -54,7 +59,8 @@ class C27(Prop):
   thorough_examples = 5000
   rule = ("Generated programs under the deterministic scheduler with the attribute's RLock replaced "
           "by a virtual lock: 2-3 threads x 1-3 statements each from {o.x = c, o.x += c, o.x -= c, "
-          "o.x *= c, read o.x} on one thread-safe attribute, written to a real source file (miros "
+          "o.x *= c, read o.x} on one thread-safe attribute (the augmented assignments also written as "
+          "objs[0].x += c, same(o).x += c, 'if True: o.x += c' and 'o . x += c'), written to a real source file (miros "
           "inspects the caller's source line); pre-emption at every line of "
           "miros/thread_safe_attributes.py and of the generated file, schedules with run lengths "
           "from 1 (fine races) to 200. Oracle: no thread dies with an exception, no deadlock (exact "
@@ -77,9 +83,13 @@ class C27(Prop):
     path = os.path.join(d, "vf_attr_program.py")
     src = ""
     for t, stmts in enumerate(case["threads"]):
-      src += "def t%d(o, out):\n" % t
-      for k, c in stmts:
-        src += "  " + STMTS[k].format(c=c) + "\n"
+      src += "def t%d(o, out):\n  objs = [o]\n  same = lambda q: q\n" % t
+      for st_ in stmts:
+        k, c = st_[0], st_[1]
+        line = STMTS[k].format(c=c)
+        if k in OPS and len(st_) > 2:
+          line = SHAPES[st_[2]].format(stmt=line, op=OPS[k], c=c)
+        src += "  " + line + "\n"
       src += "  return None\n\n"
     with open(path, "w") as f:
       f.write(src)
@@ -122,8 +132,8 @@ class C27(Prop):
     finally:
       linecache.clearcache()
       shutil.rmtree(d, ignore_errors=True)
-    mixed = any(k in ("assign", "read") for th in case["threads"] for k, _ in th) and \
-        any(k in ("add", "sub", "mul") for th in case["threads"] for k, _ in th)
+    mixed = any(x[0] in ("assign", "read") for th in case["threads"] for x in th) and \
+        any(x[0] in ("add", "sub", "mul") for th in case["threads"] for x in th)
     stats.case(case, mixed and info["between"] > 0,
                ["threads_%d" % len(case["threads"]), "switch_while_lock_held" if info["between"] else "no_such_switch"])
     if s.thread_errors:
